@@ -1,5 +1,6 @@
 import Lace.Props.C16
 import Lace.Props.C16Term
+import Lace.Props.C16Fuel
 #print axioms Lace.C16.no_spin
 #print axioms Lace.C16.iter_mono
 #print axioms Lace.C16.work_bound
@@ -7,3 +8,6 @@ import Lace.Props.C16Term
 #print axioms Lace.C16.reads_bounded
 #print axioms Lace.C16.session_work_bound
 #print axioms Lace.C16.session_terminates
+#print axioms Lace.C16.runLoop_fuel_mono
+#print axioms Lace.C16.runLoop_fuel_agree
+#print axioms Lace.C16.session_outcome_unique
